@@ -31,6 +31,7 @@ var (
 	vmDSFailRead = -1 // index of the Read request that fails (-1: none)
 	vmDSReads    = 0
 	vmDSChunked  = false // the server may cut read responses short
+	vmDSStrict   = false // the server rejects offsets it did not issue (the library's own server parses a leading number and ignores the rest)
 )
 
 type vmDSTransport struct{ base string }
@@ -93,6 +94,14 @@ func (t *vmDSTransport) Read(ctx context.Context, req transport.ReadRequest) (*t
 	} else {
 		for k := 0; k <= len(s.msgs); k++ {
 			if req.Offset == vmDSOffset(k) {
+				start = k
+			}
+		}
+	}
+	if start < 0 && !vmDSStrict && len(req.Offset) >= 10 {
+		// lenient parse as in the library's memorystorage (Sscanf %d): leading digits count
+		for k := 0; k <= len(s.msgs); k++ {
+			if req.Offset[:10] == vmDSOffset(k) {
 				start = k
 			}
 		}
